@@ -139,6 +139,11 @@ class Effects:
         out = []
         sm = self.eng.summary(fi, clsbind)
         for ev in summary_events(sm):
+            if ev[0] == "ambient" and ev[2] == "ext:warnings.filters" and not any(p.kind == "raise" and p.value.origin == "ambient-filter" and ev[1] in p.value.chain for p in sm.paths):
+                # warnings.warn(): the filter decides between printing, nothing, and raising the
+                # category - and here the raise never leaves the function (caught on the spot):
+                # nothing the caller can observe in the result depends on the filter
+                continue
             if ev[0] == "ambient":
                 out.append((ev[2], ev[1], (fi.qualname,)))
             elif ev[0] == "call" and ev[2] == "builtin:open":
